@@ -13,6 +13,7 @@ import subprocess
 from harness import common
 
 LEVEL = "proof"
+EXTRA_PROPS_FILES = ["Scfg/Props/C09Total.lean"]
 
 
 def run_worker(py, tier, seed):
@@ -60,6 +61,7 @@ def run(ctx):
            "model_mismatches": sum(r["n_model_mismatches"] for r in results),
            "cfg_violations": sum(r["n_violations"] for r in results),
            "opcode_tables_regenerated_from_source": results[0]["tables"],
+           "buildBlocks_total_hypothesis": {".".join(map(str, r["version"])): {"holds": r["last_instruction_classified"][0], "of": r["last_instruction_classified"][1]} for r in results},
            "traces_validated_against_impl": total - sum(r["n_model_mismatches"] for r in results)}
     return {"level": LEVEL, "coverage": cov, "violations": violations, "broken": broken,
             "assumptions": ["truth class of an opcode: member of dis.hasjrel ∪ dis.hasjabs; unconditional iff the name starts with JUMP and has no _IF_; "
